@@ -6,6 +6,27 @@ def run(test, checks, shards=16, timeout=600, **kw):
     return d
 
 PROPS = {
+    'C02': dict(
+        level='exploration',
+        quick=dict(runs=[run('TestC02', 6000, timeout=240)]),
+        thorough=dict(runs=[run('TestC02', 60000, timeout=1500)]),
+        assumptions=['GPT names are drawn with at most 36 UTF-16 units and no NUL (the documented limit); MBR byte ranges are only claimed at 512-byte sectors (mbr.Read ignores its sector-size arguments by its own comment)',
+                     'an MBR written over a stale GPT is judged through mbr.Read only (partition.Read prefers the GPT that is still on disk; an MBR Write may not erase it, see C03)'],
+    ),
+    'C09': dict(
+        level='fault_enumeration', count_sub_nontrivial=True,
+        quick=dict(runs=[run('TestC09', 100, timeout=240)]),
+        thorough=dict(runs=[run('TestC09', 1500, timeout=1500)]),
+        assumptions=['crash model: a WriteAt is persisted per logical sector in any subset from the stated family, writes separated by Sync() are ordered; no bit rot inside a sector',
+                     'all GUIDs are given so that "exactly old / exactly new" is computed from the specification, not from the library'],
+    ),
+    'C15': dict(
+        level='fault_enumeration', count_sub_nontrivial=True, crash_is_violation=True, mem_kb=6_000_000,
+        quick=dict(runs=[run('TestC15', 20, timeout=240)]),
+        thorough=dict(runs=[run('TestC15', 150, timeout=1500)]),
+        assumptions=['allocation bound: heap allocated while reading <= 4 x device size + 4 MiB (runtime/metrics /gc/heap/allocs:bytes delta); child processes run under RLIMIT_AS so an absurd allocation kills the child and the journaled case becomes the replay',
+                     'single-field faults plus the listed 2-field pairs; not all multi-field corruptions'],
+    ),
     'C10': dict(
         level='exploration', crash_is_violation=True,
         quick=dict(runs=[run("TestC10", 800, timeout=240)]),
